@@ -121,6 +121,12 @@ def rule_pairing(run):
                 how = "mutates the scoped object installed by a protected rebind"
             if not ok and f"{binding}@{s.func.qualname}" in table:
                 continue  # verified by F-STATE.kinds
+            if ok and status == "boundary":
+                allowed = set(table.get("boundary_guards:" + binding, {}).get("guards", []))
+                extra = sorted(set(pairing.boundary_guards(binding)) - allowed)
+                if extra:
+                    ok = False
+                    how = f"the compile-boundary restore is conditional on: {extra}"
             run.ob(
                 ok,
                 _short(binding),
@@ -153,15 +159,26 @@ def _verify_hook(run, inv, name, binding):
         f = idx.func("cohdl/std/_prefix.py", "_Prefix.__init__")
         ok = False
         line = f.node.lineno
+        # names bound directly to the result of current_entity()
+        direct = set()
         for n in walk_local(f.node):
-            if isinstance(n, ast.If):
-                t = src(n.test)
-                if "current_entity" in t or "_current_entity" in t:
+            if isinstance(n, ast.Assign) and isinstance(n.value, ast.Call) and dotted(n.value.func) == "current_entity" and not n.value.args:
+                direct |= {t.id for t in n.targets if isinstance(t, ast.Name)}
+        found = "identity test against current_entity() not found"
+        for n in walk_local(f.node):
+            if isinstance(n, ast.If) and isinstance(n.test, ast.Compare) and len(n.test.ops) == 1 and isinstance(n.test.ops[0], ast.IsNot):
+                sides = [n.test.left, n.test.comparators[0]]
+                has_state = any(dotted(x) == "_Prefix._current_entity" for x in sides)
+                cur = [x for x in sides if (isinstance(x, ast.Name) and x.id in direct)
+                       or (isinstance(x, ast.Call) and dotted(x.func) == "current_entity")]
+                if has_state and cur:
                     body = "\n".join(src(b) for b in n.body)
-                    if "_existing_prefix = {}" in body and "_current_entity =" in body:
+                    stores = f"_Prefix._current_entity = {src(cur[0])}" in body
+                    if "_Prefix._existing_prefix = {}" in body and stores:
                         ok = True
                         line = n.lineno
-        return ok, line, "counters re-initialised when the elaborated entity changes"
+                        found = "counters re-initialised when the identity of current_entity() changes"
+        return ok, line, found
     if name.startswith("no_callers:"):
         fname = name.split(":")[1]
         callers = []
